@@ -336,6 +336,12 @@ def gen_sources(ctx):
     if os.path.exists(p):
         srcs += [(json.loads(l)["src"], "corpus") for l in open(p, encoding="utf-8") if l.strip()]
     srcs += [(s, "random_fixed") for s in RANDOM_SOURCES]
+    # built-in functions with every number of arguments, where the result (also an error placeholder) reaches the bytes
+    argsets = ["", "A", "A,2", "A,2,1", "A,2,1,5", "{b},{X}", "A,{b}", "A,{b},{X}", "65", "1,2", "0"]
+    for fn in ["MID", "REPLACE", "SizeOf", "SIZEOF", "CHR", "Random", "RandomSelect", "RANDOM_SELECT", "Int", "Str", "ASC", "NumberFormat", "HEX", "Hex"]:
+        for a in argsets:
+            srcs.append(("STR A={abcd}; TrackName=%s(%s) cde" % (fn, a), "builtin_function_arity"))
+            srcs.append(("STR A={abcd}; STR S=%s(%s); Copyright=S; PRINT(S) c" % (fn, a), "builtin_function_arity"))
     # every built-in variable, where its value reaches the log and the bytes
     names = variable_names()
     for i in range(0, len(names), 6):
